@@ -9,6 +9,8 @@ package main
 import (
 	"bytes"
 	"context"
+	"crypto/sha256"
+	"encoding/hex"
 	"encoding/json"
 	"fmt"
 	"math"
@@ -1589,9 +1591,43 @@ func (a *apiUnderTest) overWS(query string, vars map[string]interface{}, opName 
 	}
 }
 
+// persisted-query storage (Config.PersistedQueryStorage): requests without the extension are not affected
+type pqStore struct {
+	mu sync.Mutex
+	m  map[string]string
+}
+
+func (p *pqStore) GetPersistedQuery(ctx context.Context, hash []byte) string {
+	p.mu.Lock()
+	defer p.mu.Unlock()
+	return p.m[string(hash)]
+}
+func (p *pqStore) PersistQuery(ctx context.Context, query string, hash []byte) {
+	p.mu.Lock()
+	defer p.mu.Unlock()
+	p.m[string(hash)] = query
+}
+
+// one POST to ServeGraphQL
+func (a *apiUnderTest) post(payload map[string]interface{}) (data interface{}, nerrs int, raw string) {
+	body, _ := json.Marshal(payload)
+	hr := httptest.NewRequest("POST", "/graphql", bytes.NewReader(body))
+	hr.Header.Set("Content-Type", "application/json")
+	w := httptest.NewRecorder()
+	a.api.ServeGraphQL(w, hr)
+	var resp struct {
+		Data   interface{}
+		Errors []interface{}
+	}
+	if err := json.Unmarshal(w.Body.Bytes(), &resp); err != nil {
+		panic(err)
+	}
+	return resp.Data, len(resp.Errors), w.Body.String()
+}
+
 func buildAPI(dc graphql.FieldCost) *apiUnderTest {
 	a := &apiUnderTest{}
-	cfg := &apifu.Config{DefaultFieldCost: dc}
+	cfg := &apifu.Config{DefaultFieldCost: dc, PersistedQueryStorage: &pqStore{m: map[string]string{}}}
 	item := &graphql.ObjectType{Name: "Item", Fields: map[string]*graphql.FieldDefinition{}}
 	item.Fields["id"] = &graphql.FieldDefinition{Type: graphql.IntType, Resolve: func(ctx graphql.FieldContext) (interface{}, error) { return ctx.Object, nil }}
 	item.Fields["w"] = &graphql.FieldDefinition{Type: graphql.IntType, Cost: graphql.FieldResolverCost(2), Resolve: func(ctx graphql.FieldContext) (interface{}, error) { return 2, nil }}
@@ -1903,6 +1939,8 @@ func apiCase(r *rng.R, apis []*apiUnderTest, dcs []graphql.FieldCost) sexp.Node 
 	route := "apifu"
 	if r.Chance(1, 6) {
 		route = "apifu-ws"
+	} else if r.Chance(1, 5) {
+		route = "apifu-pq"
 	}
 	a.reset()
 	var observed sexp.Node
@@ -1940,6 +1978,15 @@ func apiCase(r *rng.R, apis []*apiUnderTest, dcs []graphql.FieldCost) sexp.Node 
 		if route == "apifu-ws" {
 			a.reset()
 			data, ne = a.overWS(q, vars, "Q")
+		}
+		if route == "apifu-pq" {
+			// Apollo persisted queries: register the query with its hash, then send the hash alone;
+			// the cost observed is that of the request served from the store
+			sum := sha256.Sum256([]byte(q))
+			ext := map[string]interface{}{"persistedQuery": map[string]interface{}{"version": 1, "sha256Hash": hex.EncodeToString(sum[:])}}
+			a.post(map[string]interface{}{"query": q, "variables": vars, "operationName": "Q", "extensions": ext})
+			a.reset()
+			data, ne, _ = a.post(map[string]interface{}{"variables": vars, "operationName": "Q", "extensions": ext})
 		}
 		if ran, cost := a.seen(); ran {
 			observed = sexp.L(sexp.Int(0), actualSexp(cost), sexp.Int(0), actualSexp(cost))
